@@ -27,10 +27,21 @@ structure PState where
   firstToken : Nat
   querySatisfied : Bool
   complete : Bool
+  /-- ghost (not in the Go struct): the largest `lvl` with which `consumeAny` was entered -/
+  maxLvl : Nat := 0
   deriving Repr, DecidableEq
 
 def PState.fresh : PState :=
-  { ib := 0, currPath := [], firstToken := tokInvalid, querySatisfied := false, complete := false }
+  { ib := 0, currPath := [], firstToken := tokInvalid, querySatisfied := false, complete := false, maxLvl := 0 }
+
+def PState.enter (s : PState) (lvl : Nat) : PState := { s with maxLvl := max s.maxLvl lvl }
+
+/-- `if lvl == 0 { p.firstToken = t }` -/
+def PState.setFirst (s : PState) (lvl t : Nat) : PState := if lvl == 0 then { s with firstToken := t } else s
+/-- `if len(qs) == 0 { p.querySatisfied = true }` -/
+def PState.setQ (s : PState) (noQueries : Bool) : PState := if noQueries then { s with querySatisfied := true } else s
+/-- `if lvl == 0 { p.complete = true }` -/
+def PState.setComplete (s : PState) (lvl : Nat) : PState := if lvl == 0 then { s with complete := true } else s
 
 /-- `(*parserState).reset` -/
 def PState.reset (_ : PState) : PState := PState.fresh
@@ -137,6 +148,7 @@ mutual
 def consumeAny (qs : List Query) (cap : Nat) : Nat → Nat → Bytes → PState → Bytes × PState
   | 0, _, b, s => (b, s)
   | fuel + 1, lvl, b, s =>
+    let s := s.enter lvl
     if cap != 0 && lvl > cap then (b, s) else
     match consumeSpace b s with
     | ([], s1) => (b, s1)
@@ -145,7 +157,10 @@ def consumeAny (qs : List Query) (cap : Nat) : Nat → Nat → Bytes → PState 
         if c == 0x22 then
           let (r, s') := consumeString .norm cs s1.bump; (r, tokString, s')
         else if c == 0x5B then
-          let (r, s') := consumeArray qs cap fuel (lvl + 1) cs s1.bump; (r, tokArray, s')
+          -- consumeArray: push '[', fail on empty input, else loop
+          let sA := s1.bump.push [0x5B]
+          let (r, s') : Option Bytes × PState := if cs.isEmpty then (none, sA) else arrayLoop qs cap fuel (lvl + 1) cs sA
+          (r, tokArray, s')
         else if c == 0x7B then
           let (r, s') := objectLoop qs cap fuel (lvl + 1) cs s1.bump; (r, tokObject, s')
         else if c == 0x74 then
@@ -156,21 +171,14 @@ def consumeAny (qs : List Query) (cap : Nat) : Nat → Nat → Bytes → PState 
           let (r, s') := consumeConst (c :: cs) [0x6E, 0x75, 0x6C, 0x6C] s1; (r, tokNull, s')
         else
           let (r, s') := consumeNumber .start (c :: cs) s1; (r, tokNumber, s')
-      let s3 := if lvl == 0 then { s2 with firstToken := t } else s2
-      let s4 := if qs.isEmpty then { s3 with querySatisfied := true } else s3
+      let s4 := (s2.setFirst lvl t).setQ qs.isEmpty
       match rv with
       | none =>
         -- `if rv <= 0 { if lvl > 0 { return 0 }; return n }`: at the top level n counts
         -- the leading space and, for strings and containers, the opening byte
         if lvl > 0 then (b, s4)
         else (if c == 0x22 || c == 0x5B || c == 0x7B then cs else c :: cs, s4)
-      | some r => consumeSpace r (if lvl == 0 then { s4 with complete := true } else s4)
-
-/-- `consumeArray(b, qs, lvl)`, `b` starting after `[` -/
-def consumeArray (qs : List Query) (cap : Nat) : Nat → Nat → Bytes → PState → Option Bytes × PState
-  | fuel, lvl, b, s =>
-    let s := s.push [0x5B]
-    if b.isEmpty then (none, s) else arrayLoop qs cap fuel lvl b s
+      | some r => consumeSpace r (s4.setComplete lvl)
 
 /-- the `for n < len(b)` loop of `consumeArray` -/
 def arrayLoop (qs : List Query) (cap : Nat) : Nat → Nat → Bytes → PState → Option Bytes × PState
@@ -247,6 +255,14 @@ def parse (qs : List Query) (raw : Bytes) : ParseResult :=
 def looksLikeObjectOrArray : Bytes → Bool
   | [] => false
   | c :: cs => if isSpace c then looksLikeObjectOrArray cs else c == 0x7B || c == 0x5B
+
+/-- text.go `jsonHelper(raw, limit, q, wantTok)` with the recursion cap as a parameter -/
+def jsonHelperCap (cap : Nat) (raw : Bytes) (limit : Nat) (qs : List Query) (wantTok : Nat) : Bool :=
+  if !looksLikeObjectOrArray raw then false else
+  let r := parseWith PState.fresh cap qs raw
+  if !r.querySatisfied || (r.firstToken &&& wantTok) == 0 then false else
+  if limit == 0 || raw.length < limit then r.parsed == raw.length
+  else r.inspected == raw.length && raw.length > 0
 
 /-- text.go `jsonHelper(raw, limit, q, wantTok)` -/
 def jsonHelper (raw : Bytes) (limit : Nat) (qs : List Query) (wantTok : Nat) : Bool :=
